@@ -18,7 +18,7 @@ def main(tier):
         PROP,
         "props.c07",
         tier,
-        7500,
+        9500,
         40000,
         rule_text='one evaluation per monitored fix run; non-trivial = at least one application of a line-local rule with violations was observed; applications counted in monitor_totals.applications',
         assumptions=['line = text between carriage_return tokens of the in-memory model, as get_lines() prints it'],
